@@ -653,6 +653,17 @@ def _get_file(W, where):
 
 
 def apply_mutation(W, m):
+    """W' = W with the single change m; m that would leave W' ill-formed (a component that stops being replicated
+    although it uses %(replica)s) degrades to the identity."""
+    W2 = _apply_mutation(W, m)
+    rep = replicated(W2)
+    for c, is_rep in zip(W2["comps"], rep):
+        if not is_rep and any(p[0] == "l" and "%(replica)s" in p[1] for w in c["words"] for p in w):
+            return copy.deepcopy(W)
+    return W2
+
+
+def _apply_mutation(W, m):
     W = copy.deepcopy(W)
     k = m["k"]
     comps = W["comps"]
